@@ -41,6 +41,7 @@ RULE += (" Also: a tee closed (aclose / async-with exit / child close) during an
 RULE += (' Also: plain generator functions as callables (nothing reaches the loop, generators come out unstarted).')
 RULE += (' Also: synchronous managers whose enter value is awaitable payload / a generator.')
 RULE += (' Also: an awaitable fill value of zip_longest over several padding rounds.')
+RULE += (' Also: sources that are awaitable and asynchronously iterable (every tool but any_iter).')
 ASSUMPTIONS = ["a loop that checks identity of every token and reply is at least as strict as any real event loop",
                "C functions called from asyncstdlib code are visible to sys.monitoring CALL events"]
 EXHAUSTIVE = {"quick": False, "thorough": False}
@@ -175,7 +176,9 @@ def cases(tier, seed, shard, nshards):
         if name == "cycle":
             spec["steps"] = rng.randint(1, 6)
         yield {"kind": "spec", "spec": spec, "susp": rng.choice([1, 2, 3]), "fn_susp": rng.choice([0, 1, 2]),
-               "flav": [rng.choice(["async_gen", "async_class", "async_class_future"]) for _ in spec["srcs"]], "fnfl": rng.choice(["async_def", "callobj", "awaitobj"])}
+               # (an awaitable iterator is not handed to any_iter, whose contract is to await an awaitable argument)
+               "flav": [rng.choice(["async_gen", "async_class", "async_class_future"] + (["async_class_awaitable"] if name != "any_iter" else []))
+                        for _ in spec["srcs"]], "fnfl": rng.choice(["async_def", "callobj", "awaitobj"])}
     for i, name in enumerate(sorted(CATALOGUE)):
         if i % nshards == shard:
             for susp in (1, 2, 3):
